@@ -173,10 +173,57 @@ def drop_trace_macros(text, base_line, notes, rel):
     return '\n'.join(ln for _, ln in keep), [base_line + i for i, _ in keep]
 
 
+
+PARAMS_FILE = os.path.join(os.path.dirname(os.path.dirname(os.path.abspath(__file__))), 'contracts', 'PARAMS.json')
+_PARAMS = None
+RECORD_PARAMS = {}
+
+
+def expected_params():
+    global _PARAMS
+    if _PARAMS is None:
+        try:
+            _PARAMS = json.load(open(PARAMS_FILE))
+        except Exception:
+            _PARAMS = {}
+    return _PARAMS
+
+
+def param_names(text):
+    """names of the non-self parameters of the function whose text starts at `fn`, in order (simple `name: Type` and
+    `mut name: Type` patterns only; anything else yields None for that position)"""
+    cls = classify(text)
+    po = text.index('(', re.search(r'\bfn\s+\w+', text).end())
+    pc = match_close(text, cls, po)
+    inner = text[po + 1:pc]
+    parts = []
+    depth = 0
+    cur = ''
+    for ch in inner:
+        if ch in '([{<':
+            depth += 1
+        elif ch in ')]}>':
+            depth -= 1
+        if ch == ',' and depth == 0:
+            parts.append(cur)
+            cur = ''
+        else:
+            cur += ch
+    if cur.strip():
+        parts.append(cur)
+    names = []
+    for p_ in parts:
+        p_ = p_.strip()
+        if re.match(r'^(&\s*(\'\w+\s+)?)?(mut\s+)?self\b', p_):
+            continue
+        m = re.match(r'^(mut\s+)?([A-Za-z_]\w*)\s*:', p_)
+        names.append(m.group(2) if m else None)
+    return names
+
 LABEL_RX = re.compile(r'^\s*//\s*\[(C[0-9]{2}\.[A-Za-z0-9_.]+(?:,\s*C[0-9]{2}\.[A-Za-z0-9_.]+)*)\](\s.*)?$')
 
 
-def expand_fn(src, qual, opts, sections, tline0, notes):
+def expand_fn(src, qual, opts, sections, tline0, notes, drop_hints=False):
     """returns list of (text_line, origin dict) for the function"""
     start, po, pc, bo, bc = src.find_fn(qual, opts.get('impl'))
     raw = src.text[start:bc + 1]
@@ -194,6 +241,26 @@ def expand_fn(src, qual, opts, sections, tline0, notes):
             text = text.replace(s['old'], s['new'])
             notes.append({'id': s['id'], 'what': 'rewrite %r => %r (x%d)' % (s['old'], s['new'], cnt),
                           'file': src.rel, 'fn': qual})
+    # N-11: contracts name parameters; a parameter that was merely renamed in the source (e.g. `body` -> `_body`) is
+    # renamed back, so that the change reaches the verifier instead of ending in a front-end error
+    key = '%s::%s' % (src.rel, qual)
+    actual = param_names(text)
+    RECORD_PARAMS[key] = actual
+    exp = expected_params().get(key)
+    if exp and len(exp) == len(actual) and exp != actual:
+        ctext = classify(text)
+        for a_, e_ in zip(actual, exp):
+            if a_ and e_ and a_ != e_ and not re.search(r'\b%s\b' % re.escape(e_), text):
+                out_ = []
+                last_ = 0
+                for m_ in find_code(text, ctext, r'\b%s\b' % re.escape(a_)):
+                    out_.append(text[last_:m_.start()])
+                    out_.append(e_)
+                    last_ = m_.end()
+                out_.append(text[last_:])
+                text = ''.join(out_)
+                ctext = classify(text)
+                notes.append({'id': 'N-11', 'what': 'parameter `%s` of %s renamed back to `%s` (the name the contract uses)' % (a_, qual, e_), 'file': src.rel, 'fn': qual})
     if text.startswith('pub fn '):
         # N-6: `pub fn` -> `pub(crate) fn` (visibility only: lets the contract mention crate-private spec functions)
         text = 'pub(crate) fn ' + text[len('pub fn '):]
@@ -247,7 +314,7 @@ def expand_fn(src, qual, opts, sections, tline0, notes):
             m = LABEL_RX.match(ln)
             if m:
                 label = m.group(1).strip()
-            out.append((ln, tl, label))
+            out.append((ln, tl, label, s['kind']))
         return out
 
     # ret=r
@@ -260,6 +327,11 @@ def expand_fn(src, qual, opts, sections, tline0, notes):
         sig_edit = (pc + 1, bo, '%s(%s: %s)%s' % (m.group(1), opts['ret'], m.group(2).strip(), m.group(3)))
     if 'sigonly' in opts:
         sections = [x for x in sections if x['kind'] in ('spec', 'subst')]  # body-level sections are meaningless without a body
+    if drop_hints:
+        # the proof hints of this function no longer compile against the changed source (they name a local that is gone):
+        # they are proof help, not code -- drop them and let the verifier judge the contract on its own
+        sections = [x for x in sections if x['kind'] in ('spec', 'subst', 'loop')]
+        notes.append({'id': 'HINTS-DROPPED', 'what': 'proof hints of %s dropped (they do not compile against the changed source)' % qual, 'file': src.rel, 'fn': qual})
     for s in sections:
         if s['kind'] == 'spec':
             inserts.append((bo, sec_lines(s)))
@@ -408,8 +480,8 @@ def expand_fn(src, qual, opts, sections, tline0, notes):
                     linebuf_off = None
             else:
                 assert linebuf == '' or linebuf_off is None or not linebuf.strip(), linebuf
-            for (ln, tl, label) in lines:
-                result.append((ln, {'o': 'i', 'tline': tl, 'label': label}))
+            for (ln, tl, label, sk) in lines:
+                result.append((ln, {'o': 'i', 'tline': tl, 'label': label, 'sec': sk}))
     if linebuf_off is not None:
         flush()
     if 'external_body' in opts:
@@ -473,7 +545,7 @@ def parse_opts(words):
 SUBST_RX = re.compile(r'^subst\s+(\S+)\s+(\d+)\s+<<<(.*?)>>>\s*=>\s*<<<(.*?)>>>\s*$', re.S)
 
 
-def generate(repo, tmpl_path, outdir, probe=None):
+def generate(repo, tmpl_path, outdir, probe=None, drop_hints=()):
     """probe: None | 'vacuity' -> insert `proof { assert(false); }` at the start of every extracted function
     body and loop body (every one of them must then FAIL: context satisfiable)."""
     unit = os.path.basename(tmpl_path).split('.')[0]
@@ -570,7 +642,7 @@ def generate(repo, tmpl_path, outdir, probe=None):
                 qual = words[3]
                 opts = parse_opts(words[4:])
                 fnotes = []
-                lines, span = expand_fn(srcs[alias], qual, opts, sections, tline0, fnotes)
+                lines, span = expand_fn(srcs[alias], qual, opts, sections, tline0, fnotes, drop_hints=(qual in drop_hints))
                 g0 = len(out) + 1
                 if probe == 'vacuity' and 'external_body' not in opts:
                     lines = add_probes(lines)
@@ -683,10 +755,20 @@ if __name__ == '__main__':
     ap.add_argument('--repo', default='/repo')
     ap.add_argument('--out', required=True)
     ap.add_argument('--probe')
+    ap.add_argument('--record-params', action='store_true')
     a = ap.parse_args()
     try:
         rs, mp = generate(a.repo, a.template, a.out, a.probe)
     except GenError as e:
         print('GEN-ERROR: %s' % e)
         sys.exit(2)
+    if a.record_params:
+        cur = {}
+        try:
+            cur = json.load(open(PARAMS_FILE))
+        except Exception:
+            pass
+        cur.update(RECORD_PARAMS)
+        os.makedirs(os.path.dirname(PARAMS_FILE), exist_ok=True)
+        json.dump(cur, open(PARAMS_FILE, 'w'), indent=0, sort_keys=True)
     print(rs, len(mp['fns']), 'functions')
